@@ -41,6 +41,8 @@ func init() {
 			{ID: "C09-R15", Title: "channel objects have no plainly written fields", Floor: 1, Run: sharedObjectFieldsAreNotPlainWritten},
 			{ID: "C09-R16", Title: "an evaluation closes only the files it opened", Floor: 1, Run: evaluationsCloseOnlyWhatTheyOpened},
 			{ID: "C09-R17", Title: "state of a shared OS that scripts change is accessed under one lock", Floor: 1, Run: sharedOSStateIsLocked},
+			{ID: "C09-R18", Title: "shared state is enumerated", Floor: 1, Run: sharedStateIsEnumerated},
+			{ID: "C09-R19", Title: "tables that Clone snapshots are written under the clone lock", Floor: 3, Run: cloneTablesAreWrittenUnderTheCloneLock},
 		},
 	})
 }
